@@ -792,6 +792,12 @@ def _get_lambda_in_stream(
     if lda is not None:
         # Where the text came from, (row, column) as the tokenizer counts them
         lda._source_extent = (start_token.start, accumulated_tokens[-1].end)  # type: ignore
+        # Where the names, numbers and strings of that text start
+        lda._source_words = [  # type: ignore
+            t.start
+            for t in accumulated_tokens
+            if t.type in (tokenize.NAME, tokenize.NUMBER, tokenize.STRING)
+        ]
     return lda, saw_new_line
 
 
@@ -821,6 +827,7 @@ def _lambda_is_at(
 
     start = as_bytes(*extent[0])
     end = as_bytes(*extent[1])
+    last_executed = None
     for p_line, p_end_line, p_col, p_end_col in code.co_positions():
         if p_line is None or p_end_line is None or p_col is None or p_end_col is None:
             continue
@@ -828,6 +835,15 @@ def _lambda_is_at(
             continue
         if (p_line, p_col) < start or (p_end_line, p_end_col) > end:
             return False
+        if last_executed is None or (p_end_line, p_end_col) > last_executed:
+            last_executed = (p_end_line, p_end_col)
+
+    # The text must not go on after what `f` executes either (a lambda that ends its statement
+    # has nothing that stops the scan: it runs into the next lines).
+    if last_executed is not None:
+        for row, col in getattr(lda, "_source_words", []):
+            if as_bytes(row, col) >= last_executed:
+                return False
     return True
 
 
